@@ -30,6 +30,7 @@ struct IoCtx
     bool eof_seen = false;
     long budget_total = 1L << 40, budget_post_eof = 1L << 40;
     long reads = 0, seeks = 0, writes = 0, short_reads = 0, eio_fired = 0, seekfail_fired = 0, eof_hits = 0, opens = 0, closes = 0;
+    long preambles = 0; // destinations that already held earlier output
     Hash trace;
     char where[160] = "";
     bool tracing = true;
